@@ -53,7 +53,6 @@ var (
 	}
 )
 
-
 // rapid's integer and index generators are deliberately biased towards small
 // values, which is welcome for setting values but not for structural choices
 // (schema version, mutation kind, position in the text).  vfUniform spreads a
